@@ -312,7 +312,7 @@ def run(chk, prog):
         chk.require(okk, "U4", inst, where(x, fn),
                     "result of rename is not tested with every failure path ending in abort",
                     function=fn["qname"], construct=inst)
-    chk.floor("U4", len(renames), 2)
+    chk.floor("U4", len(renames), 1)
 
     # ---- U2: rename(dump -> backup 0) iff (max>0 and restarts>0), before the open
     def cond_on(e, field):
@@ -482,6 +482,26 @@ def run(chk, prog):
             return {sp.simplify(conv.conv(e["a"][0], env))}
         if e.get("k") == "Ref" and e.get("id") in names:
             return set(names[e["id"]])
+        if e.get("k") == "Ref" and e.get("id") == dump_local["id"]:
+            return {sp.Integer(-1)}          # the dump itself: "backup -1" of the chain dump -> 0 -> 1 -> ...
+        if e.get("k") == "Cond":
+            # a name chosen by a test of the loop counter: both arms must be the same function of the counter, the arm taken
+            # at the boundary value being evaluated there (i > 1 ? backup(i - 2) : dump  is  "index i - 2" for every i >= 1)
+            a, b = index_of_name(e["a"]), index_of_name(e["b"])
+            c0 = C.strip_casts(e["c"])
+            if a is None or b is None or len(a) != 1 or len(b) != 1:
+                return None
+            (ea,), (eb,) = tuple(a), tuple(b)
+            if c0.get("k") == "Bin" and c0["op"] in (">", ">=", "<", "<=", "==", "!=") and \
+                    (C.ref_key(c0["a"]) or (None, None))[1] == ivar["id"] and C.const_int(c0["b"]) is not None:
+                cst = C.const_int(c0["b"])
+                bval = {">": cst, ">=": cst - 1, "<": cst, "<=": cst + 1, "==": None, "!=": cst}[c0["op"]]
+                # the arm that is NOT a function of i is taken at exactly one value of i (the loop ends at 1)
+                gen, lit = (ea, eb) if isym in getattr(ea, "free_symbols", set()) else (eb, ea)
+                if bval is not None and isym in getattr(gen, "free_symbols", set()) and \
+                        sp.simplify(gen.subs(isym, bval) - lit) == 0:
+                    return {gen}
+            return None
         return None
 
     def visit_expr(e):
@@ -538,9 +558,13 @@ def run(chk, prog):
     if len(renamed) != 1 or renamed[0][0] is None or renamed[0][1] is None:
         raise AnalysisBroken("cannot extract the backup indices of the shift file names")
     se, de, _at = renamed[0]
-    chk.require(se == {isym - 1} and de == {isym}, "U3", "shift renames backup i-1 to backup i",
+    (se1,), (de1,) = (tuple(se) if len(se) == 1 else (None,)), (tuple(de) if len(de) == 1 else (None,))
+    okshift = se1 is not None and de1 is not None and sp.simplify(de1 - se1 - 1) == 0 and \
+        isym in getattr(de1, "free_symbols", set()) and sp.simplify(sp.diff(de1, isym) - 1) == 0
+    chk.require(okshift, "U3", "shift renames backup k-1 to backup k (k = %s)" % (de1 if de1 is not None else "?"),
                 where(rn, fn), "shift loop renames index %s to index %s" % (se, de),
                 function=fn["qname"], construct="shift rename indices")
+    doff = sp.simplify(de1 - isym) if okshift else sp.Integer(0)     # destination index = i + doff
     net = sp.simplify(env.vals[("l", ivar["id"])] - isym)
     cnd_ok = cnd is not None and cnd.get("k") == "Bin" and (
         (cnd["op"] in (">", "!=") and C.const_int(cnd["b"]) == 0) or
@@ -555,10 +579,14 @@ def run(chk, prog):
     nb = S("_number_of_backups", integer=True)
     start = conv.conv(ivar["init"], env)
     want = sp.Min(mx - 1, nb)
-    chk.require(sp.simplify(start - want) == 0 or start == want, "U3",
-                "shift starts at min(max-1, number of backups)", where(ivar["init"], fn),
-                "start index of the shift is %s, required %s: the newest existing backup is %s"
-                % (start, want, "overwritten instead of moved" ),
+
+    def plus(e_, c_):
+        return sp.Min(*[sp.expand(a_ + c_) for a_ in e_.args]) if isinstance(e_, sp.Min) else sp.expand(e_ + c_)
+    top = plus(start, doff)          # the highest destination index written
+    chk.require(sp.simplify(top - want) == 0 or top == want, "U3",
+                "the highest backup written by the shift is min(max-1, number of backups)", where(ivar["init"], fn),
+                "the shift starts at %s, i.e. the highest destination index is %s, required %s: the newest existing backup is %s"
+                % (start, top, want, "overwritten instead of moved (or the chain starts one link short)"),
                 function=fn["qname"], construct="shift start index")
     # the shift precedes the dump rename: no path from the dump rename back into the loop
     lp_lines = set(x.get("l") for x in C.walk_stmt(lp["body"]))
@@ -566,10 +594,14 @@ def run(chk, prog):
     for n, _ in dump_renames:
         after |= g.reachable(n.id)
     shift_nodes = {n.id for n, _ in shift_renames}
-    chk.require(not (after & shift_nodes) and bool(dump_renames), "U3",
-                "backups are shifted before the dump is moved to backup 0", where(lp, fn),
-                "a shift rename is reachable after the dump was renamed to backup 0",
-                function=fn["qname"], construct="shift before dump rename")
+    if conditional_dump_rename:
+        # the dump is the last link of the same descending chain (index -1 -> 0 at the last iteration): ordered by the loop
+        chk.ok("U3", "backups are shifted before the dump is moved to backup 0 (same descending loop, dump = link -1)", where(lp, fn))
+    else:
+        chk.require(not (after & shift_nodes) and bool(dump_renames), "U3",
+                    "backups are shifted before the dump is moved to backup 0", where(lp, fn),
+                    "a shift rename is reachable after the dump was renamed to backup 0",
+                    function=fn["qname"], construct="shift before dump rename")
     chk.floor("U3", 4, 4)
 
     # ---- U5: caller --------------------------------------------------------
